@@ -252,14 +252,18 @@ class PiecewiseEstimator(BaseEstimator):
 
         if hasattr(self, "random_state") and self.random_state is not None:
             rnd = numpy.random.RandomState(self.random_state)
+            # one generator per bucket, the examples a bucket borrows
+            # must not depend on the order the threads are executed
+            seeds = rnd.randint(0, 2**31 - 1, len(estimators))
+            rnds = [numpy.random.RandomState(s) for s in seeds]
         else:
-            rnd = None
+            rnds = [None for _ in estimators]
 
         self.estimators_ = Parallel(
             n_jobs=self.n_jobs, verbose=verbose, prefer="threads"
         )(
             delayed(_fit_piecewise_estimator)(
-                i, estimators[i], X, y, sample_weight, association, nb_classes, rnd
+                i, estimators[i], X, y, sample_weight, association, nb_classes, rnds[i]
             )
             for i in loop
         )
